@@ -323,7 +323,9 @@ def obs_one(ds, o, mod):
         res["ev"] = ["v", canon(ds.evaluate(json.loads(json.dumps(o))))]
     except Exception as e:
         res["ev"] = failure(e)
-    if cache_off(o) and log is not None:
+    if log is not None:
+        # effects that ran during this evaluation: with caching off always the full list; with caching on it shows
+        # whether the evaluation was served from the memo that travelled with the pickled graph
         res["fx"] = canon(list(log))
     try:
         res["ks"] = sorted(ds.keys(json.loads(json.dumps(o))))
